@@ -169,6 +169,9 @@ func FlagString(f int) string {
 	return strings.Join(parts, "|")
 }
 
+// ZeroTime as Size of a Chtimes op stands for the zero time.Time.
+const ZeroTime = -1 << 62
+
 // MaxHandles is the size of the handle table of an Env.
 const MaxHandles = 8
 
@@ -541,6 +544,10 @@ func (e *Env) Exec(op Op) Result {
 		return res(v.Lchown(op.P, op.Uid, op.Gid), "")
 	case "Chtimes":
 		t := time.Unix(op.Size, 0)
+		if op.Size == ZeroTime {
+			// the zero time.Time: "leave unchanged" for os.Chtimes.
+			t = time.Time{}
+		}
 
 		return res(v.Chtimes(op.P, t, t), "")
 	case "Chdir":
